@@ -89,7 +89,7 @@ def gen_case(ctx: Ctx, stratum=-1):
     # entry state: how the incident waves reach multislice_and_detect — through the builder API, or as a Waves object in
     # real / reciprocal space; which algorithm (step kernel) runs the slices
     entry = "builder" if builder == "prism" else rng.choice(["builder", "real", "reciprocal", "reciprocal"])
-    algorithm = "fourier" if builder == "prism" else rng.choice(["fourier", "fourier", "fourier-conjugate"] + (["realspace"] if ctx.thorough else []))  # (the real-space kernel costs a long JIT compilation per process; quick tier exercises it traced only)
+    algorithm = "fourier" if builder == "prism" else rng.choice(["fourier", "fourier", "fourier-conjugate"]) if not (ctx.thorough and rng.random() < 0.06) else "realspace"  # (the real-space kernel costs a long JIT compilation per process; quick tier exercises it traced only)
     lazy = rng.random() < 0.5
     kind_e = rng.choice(["frozen", "frozen", "atoms_ensemble"])
     # strata (deterministic part of the design): the regions where the loop's entry state and the ensemble bookkeeping meet
@@ -320,7 +320,7 @@ class C02(Property):
         # seeds through _partition_args / generate_blocks / iteration
         import ase
         base = ase.Atoms("Si2", positions=[(1, 1, 0.5), (2, 3, 1.5)], cell=(4, 4, 2))
-        for it in range(ctx.n(60, 400)):
+        for it in range(ctx.n(60, 600)):
             n = rng.randint(1, 8)
             seeds = rng.sample(range(1, 10 ** 6), n)
             fp = abtem.FrozenPhonons(base, n, 0.1, seed=tuple(seeds))
@@ -364,7 +364,7 @@ class C02(Property):
                 impl = listlist_s([[int(x) for x in blk[1]] for blk in blocks])
                 add("CrystalPotential._partition_args", f"part {list_s(vc[0])} {list_s(seeds)}", "ok " + impl, case)
         # traced orchestration
-        for i in range(ctx.n(90, 500)):
+        for i in range(ctx.n(90, 800)):
             c = trace_case(rng)
             pot, configs, text = run_traced(c)
             configs = expected_ids(configs, c["algorithm"])
@@ -441,7 +441,7 @@ class C02(Property):
                 ctx.violation("result-depends-on-processing-order", c, {"what": why, "case": tag})
 
     def conformance(self, ctx: Ctx):
-        for i in range(ctx.n(24, 150)):
+        for i in range(ctx.n(24, 400)):
             c = gen_case(ctx, stratum=i % 6)
             try:
                 self.oracle(ctx, c)
